@@ -227,6 +227,11 @@ def run_params(rng, klen, ref_lines, tractable):
         timeout = rng.choice([0.1, 0.3, 1, 2])
     if not tractable and timeout in (-1, GENEROUS):
         timeout = rng.choice([0, 1, 2])
+    if timeout not in (-1, 0, GENEROUS) and rng.random() < 0.5:
+        # arbitrary (non-round) deadlines and per-call costs: whether a deadline falls between two clock
+        # reads of the parent depends on how these line up with the 0.2 s poll period
+        timeout = round(timeout * rng.uniform(0.8, 1.25), 4)
+        extra = dict(extra, syscall_cost=round(10 ** rng.uniform(-4.3, -2.8), 6))
     return dict({"workers": workers, "threshold": threshold, "timeout": timeout, "speeds": speeds,
                  "via_cli": rng.random() < 0.15}, **extra)
 
@@ -422,6 +427,10 @@ def build_cases(tier, seed):
         cases.append({"name": "%s+%s" % (name, tag), "arch": "zen1" if isa == "x86" else arm_models[j % 4], "text": t})
     for w in corpus.windowed_cases(rng, 3 if tier == "quick" else 20):
         cases.append({"name": w["name"], "arch": w["arch"], "text": w["text"], "lines": w["lines"]})
+    for j in range(1 if tier == "quick" else 8):
+        isa = "x86" if j % 2 == 0 else "aarch64"
+        shape, t = corpus.gen_kernel(isa, rng, rng.choice([50, 52, 56]), "ladder", noise=False)
+        cases.append({"name": "gen/ladder-%d" % j, "arch": "zen1" if isa == "x86" else arm_models[j % 4], "text": t})
     # generated tractable
     ngen = 16 if tier == "quick" else 120
     for j in range(ngen):
